@@ -343,7 +343,11 @@ func (s *Scn) Insert(n *simnode.Node, enc []byte) (err error, pv interface{}, st
 			err = fmt.Errorf("decode: %w", e)
 			return
 		}
-		err = n.Chain.AddBlock(b, nil, collector.NewStatsCollector())
+		sc := n.Collector
+		if sc == nil {
+			sc = collector.NewStatsCollector()
+		}
+		err = n.Chain.AddBlock(b, nil, sc)
 	})
 	return
 }
